@@ -3,7 +3,7 @@
 import json, os, glob
 V = os.path.dirname(os.path.dirname(os.path.abspath(__file__)))
 rows = {}
-for f in ('MATRIX.tsv', 'MATRIX_round2.tsv', 'MATRIX_round3.tsv', 'MATRIX_round4.tsv', 'MATRIX_round5.tsv', 'MATRIX_all.tsv', 'MATRIX_round6.tsv'):
+for f in ('MATRIX.tsv', 'MATRIX_round2.tsv', 'MATRIX_round3.tsv', 'MATRIX_round4.tsv', 'MATRIX_round5.tsv', 'MATRIX_all.tsv', 'MATRIX_round6.tsv', 'MATRIX_round7.tsv'):
     p = os.path.join(V, 'seeded', f)
     if os.path.exists(p):
         for line in open(p):
@@ -13,7 +13,7 @@ for f in ('MATRIX.tsv', 'MATRIX_round2.tsv', 'MATRIX_round3.tsv', 'MATRIX_round4
 out = ['# Seeded changes', '',
        'Each directory holds `patch.diff` (applies to the current /repo HEAD), `demo.py <checkout>` (exit 1 with the change, 0 without) and `meta.json`.',
        'Written by fresh sub-agents that saw only the text of one property (round 1), the same text plus the hint "avoid the most central line" (round 2: `-r2mutN`), '
-       'or plus the hint "two cooperating edits, a multi-step call history, a rarely used option / entry point, a worker count, a value exactly on a boundary" (rounds 3 and 4: `-r3mutN`, `-r4mutN`; ten properties each), or plus the hint "object identity and lifetime, dtype and memory layout, order of calls, exception paths, rarely used option values, ties, exact zeros" (round 5: `-r5mutN`, all twenty properties), or a list of everything tried before plus new suggestions (round 6: `-r6mutN`, ten properties).',
+       'or plus the hint "two cooperating edits, a multi-step call history, a rarely used option / entry point, a worker count, a value exactly on a boundary" (rounds 3 and 4: `-r3mutN`, `-r4mutN`; ten properties each), or plus the hint "object identity and lifetime, dtype and memory layout, order of calls, exception paths, rarely used option values, ties, exact zeros" (round 5: `-r5mutN`, all twenty properties), or a list of everything tried before plus new suggestions (rounds 6 and 7: `-r6mutN`, `-r7mutN`, ten properties each).',
        'A patch that stopped applying because a later `fix:` commit rewrote the lines it touches was re-based (original kept as `patch.original.diff`, see `meta.json`).',
        'Result of `tools/matrix.sh` (the property\'s quick check run against a scratch worktree with the change applied):', '',
        '| id | property | quick check | what was changed | first clause that fired |', '|---|---|---|---|---|']
